@@ -393,6 +393,16 @@ func enumerate(thorough bool, add0 func(s scen)) {
 			}
 		}
 	}
+	// Y. the application gives up on its first UpdateKeys (context cancelled) while the KeyUpdate is out and its
+	// acknowledgement is late or lost; then the same side updates again and both sides write
+	for _, ops := range [][]opKind{{opUcNo, opUcNo, opWc, opWs}, {opUsNo, opUsNo, opWs, opWc}, {opUcReq, opUcNo, opWc, opWs}, {opUcNo, opWc, opWs}} {
+		for ca := 1; ca <= 3; ca++ {
+			for _, m := range []world.Mask{nil, {{FromClient: false, Idx: 0, Act: world.ActDrop}}, {{FromClient: false, Idx: 0, Act: world.ActHold3}},
+				{{FromClient: true, Idx: 0, Act: world.ActDrop}}, {{FromClient: true, Idx: 0, Act: world.ActHold3}}} {
+				add(scen{V: base, Ops: ops, Gap: -1, Mask: m, CancelFirst: ca})
+			}
+		}
+	}
 	// F. other configurations: connection IDs, other suites
 	others := []*checks.Variant{withCID(base)}
 	otherLen := 2
